@@ -27,14 +27,18 @@ func zzSamePair(a, b *zzPair) bool {
 }
 
 // ZZ_C06_Range: start/stop/resume. k = 0: no prior position; k = 1: one.
-func ZZ_C06_Range(k, batch, startMode int) { zzC06Range(k, batch, startMode, 0) }
+func ZZ_C06_Range(k, batch, startMode int) { zzC06Range(k, batch, startMode, 0, 1) }
+
+// ZZ_C06_RangeConc: the same step with a partitioned load (concurrency conc):
+// a batch cut short by stop must not let a late worker fetch past it.
+func ZZ_C06_RangeConc(k, batch, startMode, conc int) { zzC06Range(k, batch, startMode, 0, conc) }
 
 // ZZ_C06_RangeDep: the same step for an integration that references another
 // one ("d1", one recorded position, symbolic): the stop and start bounds hold
 // whatever the dependency's position is.
-func ZZ_C06_RangeDep(k, batch, startMode int) { zzC06Range(k, batch, startMode, 1) }
+func ZZ_C06_RangeDep(k, batch, startMode int) { zzC06Range(k, batch, startMode, 1, 1) }
 
-func zzC06Range(k, batch, startMode, withDep int) {
+func zzC06Range(k, batch, startMode, withDep, conc int) {
 	zzReset()
 	zzvrf.Unwind(batch + 3)
 	head := zzvrf.U64("head")
@@ -53,7 +57,10 @@ func zzC06Range(k, batch, startMode, withDep int) {
 		deps = []string{"d1"}
 		zzPreState("s", "d1", 1, 1)
 	}
-	t := zzTask(src, "s", "ig", batch, 1, start, stop, deps)
+	t := zzTask(src, "s", "ig", batch, conc, start, stop, deps)
+	if conc > 1 {
+		zzvrf.Unwind(batch + conc + 3)
+	}
 	var p0 uint64
 	if k > 0 {
 		p0 = pre.cur[k-1].num
